@@ -83,6 +83,19 @@ def gen(rng, tier):
         u = fin(cu, ec, neg=rng.randint(0, 1), mode=rng.randint(0, 5))
         z = C01.recv(rng, prec=p, mode=rng.choice([0, 0, 1, 1, 2, 3, 4, 5]))
         yield dict(family="fma-far-sticky", vars=[z, x, y, u], ops=["FMA " + rng.choice(["0 1 2 3", "0 1 2 3", "0 2 1 3", "3 1 2 3"])])
+    for _ in range(120 * n):
+        a, b = common.rand_coeff(rng, rng.choice([2, 3, 5, 10, 20])), common.rand_coeff(rng, rng.choice([2, 3, 5, 10, 20]))
+        sa, sb = str(a).rstrip("0") or "1", str(b).rstrip("0") or "1"
+        full = len(str(int(sa) * int(sb))) == len(sa) + len(sb)
+        p = max(1, len(sa) + len(sb) - rng.choice([1, 1, 1, 0, 2]))
+        cu = rng.choice([49, 5, 51, 1, 499])
+        ec = -(len(sa) + len(sb)) - rng.choice([0, 1, 2]) + rng.randint(-2, 2)
+        hp = lambda: rng.choice([None, None, 3000000000, 1294967299, 2**32 - 1, 2**31, 2**31 + 5])
+        x = fin(int(sa), -len(sa), neg=rng.randint(0, 1), prec=hp())
+        y = fin(int(sb), -len(sb), neg=rng.randint(0, 1), prec=hp())
+        u = fin(cu, ec, neg=rng.randint(0, 1))
+        z = C01.recv(rng, prec=p, mode=rng.randint(0, 5))
+        yield dict(family="fma-product-length", vars=[z, x, y, u], ops=["FMA 0 1 2 3"])
     # products at the ends of the exponent range that are still representable (mantissa product below / above 0.1),
     # with a small non-zero addend; just inside and just outside
     for _ in range(120 * n):
